@@ -38,7 +38,7 @@ def fifo_within_class(run, first):
         # an earlier arrival of the class that never got a container although a later one did
         for i, k in enumerate(order):
             if r['pipes'][k][0] == cls and k not in first and r['pipes'][k][1]:
-                later = [j for j in order[i + 1:] if r['pipes'][j][0] == cls and j in first and first[j][0] > 0]
+                later = [j for j in order[i + 1:] if r['pipes'][j][0] == cls and j in first]
                 arr = dict((kk, tt) for tt, kk in r['arrivals'])
                 later = [j for j in later if first[j][0] >= arr[k]]
                 if later:
@@ -127,13 +127,8 @@ def monitor(run):
                 yield f'tick {t}: {len(rd.susp)} suspension(s) although no query work is waiting'
             elif len(rd.susp) > qwait:
                 yield f'tick {t}: {len(rd.susp)} suspensions for {qwait} waiting query job(s)'
-    # first containers in arrival order within a priority class
-    order = [k for (_, k) in r['arrivals']]
-    for cls in (1, 2, 3):
-        served = [k for k in order if r['pipes'][k][0] == cls and k in first]
-        for a, b in zip(served, served[1:]):
-            if first[a] > first[b]:
-                yield f'priority {cls}: pipeline {b} (arrived later) got its first container at {first[b]} before pipeline {a} at {first[a]}'
+    # first containers in arrival order within a priority class (and no earlier arrival left out for good)
+    yield from fifo_within_class(run, first)
 
 
 def replay(recipe):
